@@ -41,7 +41,7 @@ PROPS["C15"] = {
 }
 PROPS["C17"] = {
     "groups": [{"run": "^vpH_C17_backoff$", "args": ["-solver", "z3-new", "-timeout-ms", "30000"]},
-               {"run": "^vpH_C17_(backoff_conc|breaker_step|T_retry|T_breaker_seq|T_breaker_seq5|T_round)$", "args": ["-solver", "z3-new"]}],
+               {"run": "^vpH_C17_(backoff_conc|breaker_step|T_retry|T_breaker_seq|T_breaker_seq5|T_round|T_round_flapping_record)$", "args": ["-solver", "z3-new"]}],
     "bounds": {"quick": "CalculateBackoff: InitialBackoff, MaxBackoff in [0, 100 days] (exact int64->float64 conversion; the exact-evaluation harness goes to one year), multiplier in [1, 10^6], jitter in [0,1], attempt any non-negative int (math.Pow uninterpreted: finite in [1,MaxFloat64] or +Inf); float64 = Real with relative rounding error 2^-53 per operation; plus exact evaluation for multipliers {1.1,2} x attempts {0,1,10,33,1100}. RetryWithBackoff: MaxAttempts 0..4 (0 bounded by 6 invocations), every outcome sequence over {nil, permanent, transient}, optional cancellation at a symbolic instant within 2 s, default backoff config. CircuitBreaker: one Call from an arbitrary reachable state (threshold 1..10^6, cooldown and elapsed time up to a year: an inductive step covering histories of any length) plus sequences of 2*threshold+2 calls for threshold 1..3 with symbolic gaps. Acquisition round: one round of 4 failing Creates."},
     "outside": "durations above one year (float->int64 overflow at 2^63 ns); multipliers below 1; negative MaxAttempts; RetryWithBackoff with a CircuitBreaker attached",
     "assumptions": ["math.Pow(x,y): y=0 or x=1 gives 1, y=1 gives x, result >= x for x,y >= 1, finite results within [1, MaxFloat64]; the +Inf branch is explored for base >= 2, exponent >= 1024",
@@ -204,6 +204,10 @@ _ADD2 = {
     "C12": "; H = 40 ms with checks taking 150 ms (first three verdicts explorer-chosen); a disconnect/reconnect blip with successful verification inside an unhealthy streak",
     "C13": "; struct-decoding failures are *json.UnmarshalTypeError for valid JSON and *json.SyntaxError otherwise",
     "C14": "; deletion markers among the emitted entries (delivered as entries with an empty value and their revision); entries kept by the consumer do not change afterwards",
+    "C10": "; a priority-9 preemption right after one of the reads of a reconnect verification (connection monitoring on)",
+    "C17": "; one acquisition round of a takeover-enabled candidate against a record that is deleted after each refused Create and re-created after each read",
+    "C20": "; StopWithContext{DeleteKey, Timeout 300 ms} against a Delete answered after 600 ms",
+    "C11": "; the flapping scenario also with verification reads whose answers travel 300 ms",
     "C18": "; a 500 ms OnDemote callback during which the instance wins the record again",
     "C19": "; connection-loss demotion (grace expiry) and a successful reconnect verification, with a promotion callback blocked on its context",
 }
